@@ -914,65 +914,125 @@ Definition cr_dec (t : N) (args : list Z) : option (lbl crypto_recv_proto) :=
   end.
 
 (* ==================================================================================== *)
-(* 10. stream receiver  (qrecovery/src/recv/recver.rs, incoming.rs, reader.rs)
+(* 10. stream receiver  (qrecovery/src/recv/recver.rs, incoming.rs, reader.rs, streams/raw.rs)
       Mutex<Result<Recver, Error>>, Recver = Recv | SizeKnown | DataRcvd | DataRead |
       ResetRcvd | ResetRead; Recv / SizeKnown hold `read_waker: Option<Waker>`.
-      Frames are delivered in order here (so SizeKnown is passed through inside one call:
-      determin_size wakes, recv wakes, upgrade wakes).                                   *)
+      Frames arrive in order except that ONE frame may be lost on the way (a hole right after the
+      contiguous part, `rv_hole` bytes long) and retransmitted later; what arrives behind the hole
+      (`rv_beyond` bytes) is not readable.  FIN behind a hole makes SizeKnown a RESTING state:
+      the reader parks in SizeKnown::poll_read, and data, RESET_STREAM or the connection error
+      must wake it from there.  Without a hole SizeKnown is passed through inside one call
+      (determin_size wakes, recv wakes, upgrade wakes).
+      `rv_fin` mirrors the harness ("a FIN frame has been delivered"): no frame is lost after it. *)
 
-Inductive rvstage := RvRecv | RvDataRcvd | RvDataRead | RvResetRcvd | RvResetRead | RvErr.
+Inductive rvstage := RvRecv | RvSizeKnown | RvDataRcvd | RvDataRead | RvResetRcvd | RvResetRead | RvErr.
 
-Record rvobj := mkRv { rv_st : rvstage; rv_avail : N; rv_w : option wid }.
+Record rvobj := mkRv { rv_st : rvstage; rv_avail : N; rv_w : option wid;
+                       rv_hole : N; rv_beyond : N; rv_fin : bool }.
 
+(* stage / readable bytes / waker change, the bookkeeping of the hole stays *)
+Definition rv_set (o : rvobj) (st : rvstage) (avail : N) (w : option wid) : rvobj :=
+  mkRv st avail w (rv_hole o) (rv_beyond o) (rv_fin o).
+
+Definition rv_live (st : rvstage) : bool :=
+  match st with RvRecv | RvSizeKnown => true | _ => false end.
+
+(* Reader::poll_read: Recv::poll_read and SizeKnown::poll_read are the same check-and-register *)
 Definition rv_poll (o : rvobj) (w : wid) : rvobj * pres :=
   match rv_st o with
-  | RvRecv => if (0 <? rv_avail o)%N then (mkRv RvRecv 0 (rv_w o), Ready (100 + Z.of_N (rv_avail o)))
-              else (mkRv RvRecv 0 (Some w), Pending)
-  | RvDataRcvd => (mkRv RvDataRead 0 None, Ready (100 + Z.of_N (rv_avail o)))
+  | RvRecv | RvSizeKnown =>
+      if (0 <? rv_avail o)%N then (rv_set o (rv_st o) 0 (rv_w o), Ready (100 + Z.of_N (rv_avail o)))
+      else (rv_set o (rv_st o) 0 (Some w), Pending)
+  | RvDataRcvd => (rv_set o RvDataRead 0 None, Ready (100 + Z.of_N (rv_avail o)))
   | RvDataRead => (o, Ready 100)
-  | RvResetRcvd => (mkRv RvResetRead 0 None, Ready 2)
+  | RvResetRcvd => (rv_set o RvResetRead 0 None, Ready 2)
   | RvResetRead => (o, Ready 2)
   | RvErr => (o, Ready 2)
   end.
 
-Inductive rv_op := RvData (len : N) | RvFin (len : N) | RvReset | RvConnError.
+Inductive rv_op :=
+| RvData (len : N) | RvFin (len : N)      (* STREAM frame at the next offset, without / with FIN *)
+| RvLose (len : N)                        (* the frame at the next offset is lost on the way (no call) *)
+| RvRetx                                  (* the lost frame is retransmitted *)
+| RvReset                                 (* RESET_STREAM, final size consistent with what was sent *)
+| RvBadReset                              (* RESET_STREAM with a final size beyond the flow-control limit *)
+| RvConnError.
 
-(* frames for a stream that has left Recv are ignored (the stream was removed from the table) *)
-Definition rv_oper (o : rvobj) (op : rv_op) : rvobj * list wid :=
-  match rv_st o with
-  | RvRecv =>
-      match op with
-      | RvData len =>
-          if (0 <? rv_avail o + len)%N then (mkRv RvRecv (rv_avail o + len) None, take_waker (rv_w o))
-          else (o, [])
-      | RvFin len => (mkRv RvDataRcvd (rv_avail o + len) None, take_waker (rv_w o))
-      | RvReset => (mkRv RvResetRcvd 0 None, take_waker (rv_w o))
-      | RvConnError => (mkRv RvErr 0 None, take_waker (rv_w o))
+(* a STREAM frame without FIN arriving in stage Recv / a zero-length frame in SizeKnown:
+   `if self.rcvbuf.is_readable() && let Some(waker) = self.read_waker.take() { waker.wake() }` *)
+Definition rv_wake_if_readable (o : rvobj) (st : rvstage) (avail beyond : N) : rvobj * list wid * Z :=
+  if (0 <? avail)%N then (mkRv st avail None (rv_hole o) beyond (rv_fin o), take_waker (rv_w o), 0%Z)
+  else (mkRv st avail (rv_w o) (rv_hole o) beyond (rv_fin o), [], 0%Z).
+
+(* result code: 0 = Ok, 1 = Err(QuicError) (FinalSize / FlowControl: the frame changed nothing).
+   Frames for a stream that has left Recv / SizeKnown are ignored (it was removed from the table). *)
+Definition rv_oper (o : rvobj) (op : rv_op) : option (rvobj * list wid * Z) :=
+  match op with
+  | RvLose len =>
+      if (rv_hole o =? 0)%N && negb (rv_fin o) && (0 <? len)%N
+      then Some (mkRv (rv_st o) (rv_avail o) (rv_w o) len 0 false, [], 0%Z)
+      else None
+  | RvRetx =>
+      if (0 <? rv_hole o)%N then
+        let all := (rv_avail o + rv_hole o + rv_beyond o)%N in
+        match rv_st o with
+        | RvRecv => Some (mkRv RvRecv all None 0 0 (rv_fin o), take_waker (rv_w o), 0%Z)
+        | RvSizeKnown =>      (* recv wakes; is_all_rcvd: upgrade -> DataRcvd *)
+            Some (mkRv RvDataRcvd all None 0 0 (rv_fin o), take_waker (rv_w o), 0%Z)
+        | _ => Some (mkRv (rv_st o) (rv_avail o) (rv_w o) 0 0 (rv_fin o), [], 0%Z)
+        end
+      else None
+  | RvData len =>
+      match rv_st o with
+      | RvRecv =>
+          if (rv_hole o =? 0)%N then Some (rv_wake_if_readable o RvRecv (rv_avail o + len) 0)
+          else Some (rv_wake_if_readable o RvRecv (rv_avail o) (rv_beyond o + len))
+      | RvSizeKnown =>      (* the next offset is the final size: only an empty frame fits *)
+          if (0 <? len)%N then Some (o, [], 1%Z)
+          else Some (rv_wake_if_readable o RvSizeKnown (rv_avail o) (rv_beyond o))
+      | _ => Some (o, [], 0%Z)
       end
-  | RvDataRcvd | RvDataRead | RvResetRcvd | RvResetRead =>
-      match op with
-      | RvConnError => (o, [])      (* Incoming::on_conn_error: `_ => return` *)
-      | _ => (o, [])
+  | RvFin len =>
+      match rv_st o with
+      | RvRecv =>           (* determin_size wakes the reader unconditionally *)
+          if (rv_hole o =? 0)%N
+          then Some (mkRv RvDataRcvd (rv_avail o + len) None 0 0 true, take_waker (rv_w o), 0%Z)
+          else Some (mkRv RvSizeKnown (rv_avail o) None (rv_hole o) (rv_beyond o + len) true,
+                     take_waker (rv_w o), 0%Z)
+      | RvSizeKnown =>
+          if (0 <? len)%N then Some (o, [], 1%Z)
+          else Some (rv_wake_if_readable o RvSizeKnown (rv_avail o) (rv_beyond o))
+      | _ => Some (mkRv (rv_st o) (rv_avail o) (rv_w o) (rv_hole o) (rv_beyond o) true, [], 0%Z)
       end
-  | RvErr => (o, [])
+  | RvReset =>
+      if rv_live (rv_st o) then Some (rv_set o RvResetRcvd 0 None, take_waker (rv_w o), 0%Z)
+      else Some (o, [], 0%Z)
+  | RvBadReset =>
+      if rv_live (rv_st o) then Some (o, [], 1%Z) else Some (o, [], 0%Z)
+  | RvConnError =>
+      if rv_live (rv_st o) then Some (rv_set o RvErr 0 None, take_waker (rv_w o), 0%Z)
+      else Some (o, [], 0%Z)       (* Incoming::on_conn_error: `_ => return` *)
   end.
 
 Definition recver_proto : proto :=
   {| Obj := rvobj; PArg := unit; Op := rv_op;
-     obj0 := mkRv RvRecv 0 None; arg0 := tt;
+     obj0 := mkRv RvRecv 0 None 0 0 false; arg0 := tt;
      poll := fun o w _ => if single w then let '(o', r) := rv_poll o w in Some (o', [], r) else None;
-     oper := fun o op => let '(o', wk) := rv_oper o op in Some (o', wk, 0%Z) |}.
+     oper := rv_oper |}.
 
 Definition rv_cond (o : rvobj) (_ : unit) : Prop :=
-  match rv_st o with RvRecv => (0 < rv_avail o)%N | _ => True end.
+  match rv_st o with RvRecv | RvSizeKnown => (0 < rv_avail o)%N | _ => True end.
 
 Definition rv_dec (t : N) (args : list Z) : option (lbl recver_proto) :=
   match t, args with
   | 0%N, [w] => Some (@LPoll recver_proto (Z.to_nat w) tt)
   | 1%N, [0%Z; n] => Some (@LOp recver_proto (RvData (Z.to_N n)))
   | 1%N, [1%Z; n] => Some (@LOp recver_proto (RvFin (Z.to_N n)))
+  | 1%N, [2%Z; n] => Some (@LOp recver_proto (RvLose (Z.to_N n)))
+  | 1%N, [3%Z] => Some (@LOp recver_proto RvRetx)
   | 2%N, [0%Z] => Some (@LOp recver_proto RvConnError)
   | 2%N, [1%Z] => Some (@LOp recver_proto RvReset)
+  | 2%N, [2%Z] => Some (@LOp recver_proto RvBadReset)
   | 3%N, [w] => Some (LDrop (Z.to_nat w))
   | _, _ => None
   end.
@@ -1148,6 +1208,88 @@ Definition dg_dec (t : N) (args : list Z) : option (lbl datagram_proto) :=
   end.
 
 (* ==================================================================================== *)
+(* 17. Wakers::combine_with over an event source  (qbase/src/util/wakers.rs; the users are
+      UdpSocketController::{poll_send, poll_recv, poll_close} in qinterface/src/io/handy.rs)
+          combine_with(cx, poll):  self.register(cx.waker());                  -- Wakers lock
+                                   poll(&mut Context::from_waker(&self.to_waker()))
+      Any number of tasks poll one shared source through one `Arc<Wakers>`; the source gets the
+      COMBINED waker (wake = wake_all).  The source is the harness's: readiness counter, ONE
+      registration slot that is taken when it fires (edge-triggered, as tokio's ScheduledIo),
+      and what a real inner poll may do with the waker it was given before it returns Pending:
+        CbPlain      check readiness; not ready: store the combined waker, Pending;
+        CbThrottled  wake the waker it was given and return Pending without looking at readiness
+                     (tokio's cooperative budget: `wake_by_ref(); Pending`);
+        CbRace       as CbPlain, and a datagram arrives (readiness + the slot fires) right after the
+                     inner poll registered, before combine_with does anything else -- the
+                     two-thread schedule "notifier between the waiter's check and its return",
+                     enumerated at the granularity of the lock-protected steps;
+        CbRaceClose  the same schedule with poll_close (wake_all, closed) as the notifier.
+      In all of them the calling task must already be in the set when the combined waker is
+      invoked: register first, then poll.                                                 *)
+
+Record cbobj := mkCb { cb_regs : list wid; cb_slot : bool; cb_ready : N; cb_closed : bool }.
+Inductive cb_arg := CbPlain | CbThrottled | CbRace | CbRaceClose.
+
+(* WakerVec::register: push unless an equal Waker is there *)
+Definition cb_register (regs : list wid) (w : wid) : list wid :=
+  if existsb (Nat.eqb w) regs then regs else regs ++ [w].
+
+Definition cb_poll (o : cbobj) (w : wid) (a : cb_arg) : cbobj * list wid * pres :=
+  if cb_closed o then (o, [], Ready 2)            (* usc()? fails before combine_with *)
+  else
+    let regs := cb_register (cb_regs o) w in
+    match a with
+    | CbThrottled => (mkCb [] (cb_slot o) (cb_ready o) false, regs, Pending)
+    | _ =>
+        if (0 <? cb_ready o)%N then (mkCb regs (cb_slot o) (cb_ready o - 1) false, [], Ready 1)
+        else match a with
+             | CbRace => (mkCb [] false 1 false, regs, Pending)
+             | CbRaceClose => (mkCb [] true 0 true, regs, Pending)
+             | _ => (mkCb regs true 0 false, [], Pending)
+             end
+    end.
+
+Inductive cb_op := CbArrive | CbSpurious | CbClose.
+
+(* the source fires: the slot is taken, the combined waker wakes the whole set *)
+Definition cb_fire (o : cbobj) (ready : N) : cbobj * list wid :=
+  if cb_slot o then (mkCb [] false ready false, cb_regs o)
+  else (mkCb (cb_regs o) false ready false, []).
+
+Definition cb_oper (o : cbobj) (op : cb_op) : cbobj * list wid :=
+  if cb_closed o then (o, [])
+  else match op with
+       | CbArrive => cb_fire o (cb_ready o + 1)
+       | CbSpurious => cb_fire o (cb_ready o)
+       | CbClose => (mkCb [] (cb_slot o) (cb_ready o) true, cb_regs o)      (* poll_close: wake_all *)
+       end.
+
+Definition combine_proto : proto :=
+  {| Obj := cbobj; PArg := cb_arg; Op := cb_op;
+     obj0 := mkCb [] false 0 false; arg0 := CbPlain;
+     poll := fun o w a => Some (cb_poll o w a);
+     oper := fun o op => let '(o', wk) := cb_oper o op in Some (o', wk, 0%Z) |}.
+
+(* the source is ready, or the socket was closed *)
+Definition cb_cond (o : cbobj) (_ : cb_arg) : Prop := cb_closed o = true \/ (0 < cb_ready o)%N.
+(* what a poll observes on its own: a throttled inner poll does not look at readiness *)
+Definition cb_cond_obs (o : cbobj) (a : cb_arg) : Prop :=
+  match a with CbThrottled => cb_closed o = true | _ => cb_cond o a end.
+
+Definition cb_dec (t : N) (args : list Z) : option (lbl combine_proto) :=
+  match t, args with
+  | 0%N, [w; 0%Z] => Some (@LPoll combine_proto (Z.to_nat w) CbPlain)
+  | 0%N, [w; 1%Z] => Some (@LPoll combine_proto (Z.to_nat w) CbThrottled)
+  | 0%N, [w; 2%Z] => Some (@LPoll combine_proto (Z.to_nat w) CbRace)
+  | 0%N, [w; 3%Z] => Some (@LPoll combine_proto (Z.to_nat w) CbRaceClose)
+  | 1%N, [0%Z] => Some (@LOp combine_proto CbArrive)
+  | 1%N, [1%Z] => Some (@LOp combine_proto CbSpurious)
+  | 2%N, [] => Some (@LOp combine_proto CbClose)
+  | 3%N, [w] => Some (LDrop (Z.to_nat w))
+  | _, _ => None
+  end.
+
+(* ==================================================================================== *)
 (* stream entry point: cfg = [protocol id].  For a protocol with a recorded defect the model
    of the code AS IT IS is compared while the finding is open, the model of the REPAIRED code
    once known_findings.json records it as fixed: coq/Generated/C16Variant.v (f1_fixed, ...) is
@@ -1177,5 +1319,6 @@ Definition run_wakers (cfg : list Z) (ops : list (N * list Z)) : list (list Z) :
   | 14%Z :: _ => brun aa_t aa_method aa_init ops
   | 15%Z :: _ => brun sb_t (sb_method f36_fixed) sb_init ops
   | 16%Z :: _ => lrun asyncdeque_proto (decw rb_dec) (linit _) ops     (* RecvBuffer = AsyncDeque *)
+  | 17%Z :: _ => lrun combine_proto (decw cb_dec) (linit _) ops
   | _ => []
   end.
